@@ -39,6 +39,7 @@ def build_cov(name, openmp):
     jobs.append((os.path.join(repo, 'src', 'parameters.c'), os.path.join(out, 'k_parameters.o'), kflags))
     for s in build.SIM_SRC:
         jobs.append((os.path.join(build.SIM, s), os.path.join(out, 's_' + s[:-2] + '.o'), sflags))
+    jobs.append((os.path.join(build.SIM, 'omptest.c'), os.path.join(out, 's_omptest.o'), sflags + (['-fopenmp'] if openmp else [])))
     log = []
     with ThreadPoolExecutor(max_workers=16) as ex:
         rcs = list(ex.map(lambda j: build.run(['gcc'] + common + j[2] + ['-c', j[0], '-o', j[1]], log), jobs))
